@@ -14,6 +14,10 @@
 From Coq Require Import List ZArith NArith Bool.
 From Astisub Require Import Kit.Base Kit.Str Kit.Scan Kit.Html Model.Dur Model.Srt.
 From Astisub Require Import Proofs.SrtEscProofs Proofs.SrtProofs Proofs.SrtReadProofs Proofs.EolProofs Proofs.SrtIOProofs.
+From Astisub Require Import Proofs.SrtSimple Proofs.SrtSimpleRaw.
+From Astisub Require Import Kit.Chk Model.SrtC Proofs.SrtChk Proofs.SrtWriteRender.
+From Coq Require Strings.String.
+Import Strings.String.StringSyntax.
 Import ListNotations.
 
 (* the document written for a representable cue list is read back as that list *)
@@ -75,7 +79,116 @@ Theorem C01_reader_total : forall ls e p, read_srt_lines ls e <> Panic p.
 Proof. exact read_srt_lines_no_panic. Qed.
 Print Assumptions C01_reader_total.
 
+(* ---- the hypotheses stay inside the faithful domain of the markup tokenizer model ----
+   The SubRip model reads text through a model of the golang.org/x/net/html tokenizer that agrees with the real tokenizer
+   only on Kit.Html.html_simple (no raw-text element script/style/title/..., no comment, no '&' and no CR inside an
+   attribute value, no NUL byte).  The theorems above are statements about the library only for inputs whose tokenized
+   lines lie in that domain; the four theorems below show that their hypotheses guarantee it, so that none of them
+   holds "of the model only". *)
+
+(* the bytes the writer emits for a representable line: the colour has no double quote, '&', CR, NUL (col_ok), the text
+   no NUL, '<' is escaped, the only tags are font/b/i/u *)
+Theorem C01_written_line_in_faithful_domain : forall l : list srun, repr_line l -> html_simple (line_str l) = true.
+Proof. exact repr_line_simple. Qed.
+Print Assumptions C01_written_line_in_faithful_domain.
+
+(* every line of the document written for representable cues (index, timing and text lines) *)
+Theorem C01_written_document_in_faithful_domain : forall (l : list sitem) data, Forall repr_item l -> write_srt l = Ok data ->
+  Forall (fun x => html_simple x = true) (lines data).
+Proof. exact written_doc_simple. Qed.
+Print Assumptions C01_written_document_in_faithful_domain.
+
+(* raw body lines are arbitrary strings: there the domain predicate itself is the hypothesis (last conjunct of
+   body_line_ok) *)
+Theorem C01_rendered_raw_in_faithful_domain : forall q : rcue, rcue_ok q -> Forall (fun x => html_simple x = true) (rc_body q).
+Proof. exact rcue_ok_simple. Qed.
+Print Assumptions C01_rendered_raw_in_faithful_domain.
+
+(* every line of a rendering that reaches the tokenizer (index and text lines; the timing line is recognised by its
+   arrow and never tokenized; the byte-order mark is removed before) *)
+Theorem C01_rendering_in_faithful_domain : forall (cs : list (rend * rcue)) (eof : nat),
+  Forall (fun p => rend_ok (fst p) /\ rcue_ok (snd p)) cs ->
+  Forall (fun x => contains arrow x = true \/ html_simple x = true) (all_cue_lines cs ++ repeat [] eof).
+Proof. exact rendered_raw_simple. Qed.
+Print Assumptions C01_rendering_in_faithful_domain.
+
+(* the strengthened conditions are needed (audit witnesses, both replayed on the library).
+   Colour [&amp;]: all the other conditions hold and the model reads the written line back unchanged, but the line is
+   outside the faithful domain: the library writes the colour unescaped and reads it back as [&]. *)
+Theorem C01_needs_colour_without_amp :
+  col_okb amp_colour = false /\ repr_itemb amp_item = false /\
+  html_simple (line_str amp_line) = false /\
+  parse_text_srt (line_str amp_line) sa0 = (amp_line, sa0).
+Proof. exact amp_colour_witness. Qed.
+(* Raw line [<script>x<b>y]: trimmed, valid UTF-8, no arrow; the model reads the runs x and bold y, the library the single
+   run [x<b>y] because the real tokenizer treats script as a raw-text element. *)
+Theorem C01_needs_raw_line_simple :
+  html_simple script_line = false /\ body_line_okb script_line = false /\ rcue_okb script_cue = false /\
+  (str_eqb (trim_space script_line) script_line && utf8_valid script_line && negb (contains arrow script_line) = true) /\
+  forallb line_keepsb (fst (thread (rc_body script_cue) sa0)) = true /\
+  parse_text_srt script_line sa0 = ([mkSrun [120] None 0; mkSrun [121] (Some (mkSa true false false None)) 0], mkSa true false false None).
+Proof. exact raw_text_witness. Qed.
+
 (* non-vacuity: a four-cue list with styled multi-run lines, '&', '<', nbsp, a digits-only text line, a cue
    without lines and times off the millisecond grid satisfies the hypotheses of C01_write_read *)
 Example C01_example : Forall repr_item ex_items /\ ex_items <> [].
 Proof. split; [exact ex_items_repr | discriminate]. Qed.
+
+(* ---- the writer's output, stated without the reader ----
+   The bytes WriteToSRT produces ARE the LF-terminated canonical rendering of the cue list (w_rendering: byte-order
+   mark, cue k numbered k+1 on its index line, one blank line between cues and none after the last, comma and three
+   fraction digits, one space on each side of the arrow, no coordinates).  The equation has no hypothesis on the cues
+   and does not mention the reader. *)
+Theorem C01_write_is_rendering : forall l : list sitem, l <> [] ->
+  write_srt l = Ok (render_eol [10] (render_items true (w_rendering l) 0)).
+Proof. exact write_is_rendering. Qed.
+Print Assumptions C01_write_is_rendering.
+
+(* what that rendering denotes (denote_item: the number on the index line, the times truncated to the rendered
+   fraction digits, the lines): the cues renumbered 1..n and truncated to the millisecond *)
+Theorem C01_write_denotes : forall l : list sitem, (Z.of_nat (length l) <= max_int64)%Z ->
+  map denote_item (w_rendering l) = renumber_truncate l.
+Proof. exact write_denotes. Qed.
+Print Assumptions C01_write_denotes.
+
+(* for representable cues the canonical rendering is one of the renderings C01_read_rendered covers ... *)
+Theorem C01_write_rendering_ok : forall l : list sitem, Forall repr_item l -> (Z.of_nat (length l) <= max_int64)%Z ->
+  Forall (fun p => rend_ok (fst p) /\ repr_item (snd p)) (w_rendering l) /\
+  Forall (fun p => gap_ok (fst p)) (tl (w_rendering l)).
+Proof. exact write_rendering_ok. Qed.
+Print Assumptions C01_write_rendering_ok.
+
+(* ... so that the round trip C01_write_read follows from the three statements above and C01_read_rendered *)
+Theorem C01_write_read_via_rendering : forall l : list sitem, Forall repr_item l -> l <> [] ->
+  (Z.of_nat (length l) <= max_int64)%Z ->
+  exists data, write_srt l = Ok data /\
+               data = render_eol [10] (render_items true (w_rendering l) 0) /\
+               read_srt data = Ok (map denote_item (w_rendering l)) /\
+               map denote_item (w_rendering l) = renumber_truncate l.
+Proof. exact write_read_via_rendering. Qed.
+Print Assumptions C01_write_read_via_rendering.
+
+(* a computed instance: the lines of the canonical rendering of two cues (index fields 7 and 0, an end time off the
+   millisecond grid, a bold run, an ampersand) and the bytes written *)
+Example C01_write_is_rendering_example :
+  render_items true (w_rendering x_l) 0 =
+    [ bom ++ wb "1"; wb "00:00:01,500 --> 00:00:02,000"; wb "<b>Hi</b>"; wb "a&amp;b"; [];
+      wb "2"; wb "00:00:03,000 --> 00:00:04,000"; wb "x" ] /\
+  write_srt x_l = Ok (render_eol [10] (render_items true (w_rendering x_l) 0)).
+Proof. split; [exact x_rendering_lines | exact x_written]. Qed.
+
+(* ---- the model the harness runs has explicit panic sites (C08) ----
+   Model/SrtC.v transcribes srt.go with every index expression, slice expression and pointer dereference as a checked
+   access that yields Panic <line of srt.go> when out of range / nil, behind the guard the Go code tests.  It is the
+   function the extracted driver runs against the library; the theorems of this file are stated on the pattern-matching
+   transcription, which computes the same function: *)
+Theorem C01_checked_reader_agrees : forall ls e, read_srt_lines_c ls e = read_srt_lines ls e.
+Proof. exact read_srt_lines_c_ok. Qed.
+Print Assumptions C01_checked_reader_agrees.
+Theorem C01_checked_writer_agrees : forall l, write_srt_c l = write_srt l.
+Proof. exact write_srt_c_ok. Qed.
+Print Assumptions C01_checked_writer_agrees.
+(* no panic site of srt.go is reachable (the content: each guard implies its access is in range) *)
+Theorem C01_checked_reader_total : forall ls e p, read_srt_lines_c ls e <> Panic p.
+Proof. exact read_srt_lines_c_no_panic. Qed.
+Print Assumptions C01_checked_reader_total.
